@@ -266,8 +266,9 @@ impl Spec {
             }
         }
         for m in &self.magic {
-            out.extend(m.variant_recv);
-            out.extend(m.field_recv);
+            // usize::MAX stands for "the syn type itself"
+            out.extend(m.variant_recv.filter(|x| *x != usize::MAX));
+            out.extend(m.field_recv.filter(|x| *x != usize::MAX));
         }
         out.sort();
         out.dedup();
